@@ -386,6 +386,18 @@ def World.copy (w : World) (s : Nat) : World × Nat :=
   let (w3, tc) := w2.newTc (w2.tcs S.tc)
   w3.pushStr { imol := im, tc := tc, cf := cf, price := 0, pkg := S.pkg, pkgId := S.pkgId, sid := none }
 
+/-- `stream.copy(thermo=package)`: a copy re-indexed for the given package object (`reset_chemicals`
+on the copied indexer); nothing but a plain copy when the package is the stream's own; fails when
+the stream holds a chemical the package lacks.  `pid` names one of the packages that exist before
+any stream (identity `2 * pid`), `pkg` is its CAS list. -/
+def World.copyTo (w : World) (s : Nat) (pid : Nat) (pkg : List Nat) : Except Err (World × Nat) :=
+  let S := w.strs s
+  if S.pkgId = 2 * pid then .ok (w.copy s)
+  else if (w.rowIdsOf S.imol).all (fun r => remapOk pkg S.pkg (w.rows r)) then
+    .ok (((w.copy s).1.setStr (w.copy s).2 { (w.copy s).1.strs (w.copy s).2 with pkg := pkg, pkgId := 2 * pid }),
+         (w.copy s).2)
+  else .error .undefinedChemical
+
 /-- `stream.flow_proxy()` -/
 def World.flowProxy (w : World) (s : Nat) : World × Nat :=
   let S := w.strs s
@@ -608,6 +620,7 @@ inductive Op where
   | setPrice (s : Nat) (v : Rat)
   | setCF (s : Nat) (k : Nat) (v : Rat)
   | copy (s : Nat)
+  | copyTo (s : Nat) (pid : Nat) (pkg : List Nat)
   | copyLike (t s : Nat)
   | copyTC (t s : Nat)
   | link (t s : Nat) (flow phase tp : Bool)
@@ -620,7 +633,7 @@ inductive Op where
 def Op.ids : Op → List Nat
   | .new _ => []
   | .setFlow s .. | .setT s _ | .setP s _ | .setPhase s _ | .empty s | .setPrice s _ | .setCF s ..
-  | .copy s | .unlink s | .proxy s | .flowProxy s | .pickle s => [s]
+  | .copy s | .copyTo s .. | .unlink s | .proxy s | .flowProxy s | .pickle s => [s]
   | .copyLike t s | .copyTC t s | .link t s .. => [t, s]
 
 def World.exec (w : World) : Op → Res World
@@ -633,6 +646,7 @@ def World.exec (w : World) : Op → Res World
   | .setPrice s v => .ok (w.setPrice s v)
   | .setCF s k v => .ok (w.setCF s k v)
   | .copy s => .ok (w.copy s).1
+  | .copyTo s pid pkg => (Res.ofExcept (w.copyTo s pid pkg)) |> fun | .ok p => .ok p.1 | .err e => .err e | .skip => .skip
   | .copyLike t s => w.copyLike t s
   | .copyTC t s => .ok (w.copyTC t s)
   | .link t s f p tp => w.link t s f p tp
